@@ -46,7 +46,7 @@ type e2eIn struct {
 	Tgt      string `json:"tgt"`
 }
 
-const e2eRunID = "ffeeddccbbaa00112233445566778899aabbccdd"
+const e2eRunID = "FFeeddccbbaa00112233445566778899aabbCCDD" // (mixed case: an id is an opaque token, to be used verbatim)
 
 func e2eServers(in []byte) (interface{}, error) {
 	var cfg e2eIn
